@@ -9,56 +9,83 @@ namespace CircBuf
 maybe theorem tie_drop_range (rs re : Nat) (s : Sys) (h : Inv s.buf) (hnd : NonDefect (dropRange rs re s).1) :
     Gen.drop_range (rs, re) s = dropRange rs re s := by
   tie3 h hnd [Gen.drop_range, dropRange, dropSegments]
+/-- evaluation of the translated body of `truncate_*`: its conditions are split (innermost first; the
+combinations the arithmetic facts exclude are pruned), calls of `drop_range` are replaced by the model's
+(`htie`), what remains is compared -/
+syntax "truncEval" "[" Lean.Parser.Tactic.simpLemma,* "]" : tactic
+macro_rules
+  | `(tactic| truncEval [$ls,*]) => `(tactic| (
+      simp only [$ls,*, getBuf_bind, getBuf_run, ite_run, ite_bind, bind_assoc_run, pure_run, pure_bind_run, liftE_bind,
+        liftE_run, dassert_bind, bind_run, uadd, usub, decide_eq_true_eq, Nat.sub_zero, Nat.zero_add, Nat.add_zero]
+      repeat' (first
+        | rfl
+        | ifsplit1
+        | (simp only [$ls,*, getBuf_bind, getBuf_run, ite_run, ite_bind, bind_assoc_run, pure_run, pure_bind_run,
+             liftE_bind, liftE_run, dassert_bind, dassert_run, bind_run])
+        | split)))
+
 maybe theorem tie_truncate_back (n : Nat) (s : Sys) (h : Inv s.buf) (hnd : NonDefect (truncateBack n s).1) :
     Gen.truncate_back n s = truncateBack n s := by
   first
   | rfl      -- (a body outside the subset is *defined* as the model's function)
   | (
+     have hsz := h.size_le
+     have hW := h.cap_lt
      by_cases hz : s.buf.cap = 0 ∨ n ≥ s.buf.size
-     · simp only [Gen.truncate_back, truncateBack, getBuf_bind, ite_run, hz, if_true]
+     · -- nothing to do: the model returns at once; so must the source, whatever the order of its tests
+       have hm : truncateBack n s = (.ok (), s) := by
+         simp only [truncateBack, getBuf_bind, ite_run, hz, if_true, pure_run]
+       rw [hm]
+       truncEval [Gen.truncate_back]
+       all_goals (first | rfl | (exfalso; omega))
      · have hn : n < s.buf.size := by omega
        have hm : truncateBack n s = (dropRange n s.buf.size >>= fun _ => do
            let b' ← getBuf
            dassert (decide (b'.size = n))) s := by
          simp only [truncateBack, getBuf_bind, ite_run, hz, if_false]
-       rw [hm] at hnd
+       rw [hm] at hnd ⊢
        have hnd' := nd_of_bind _ _ s hnd
-       simp only [Gen.truncate_back, truncateBack, getBuf_bind, ite_run, bind_assoc_run, pure_run, pure_bind_run, hz,
-         if_false]
-       -- a body that guards the call with `!range.is_empty()` (always true here) is the same body
-       try simp only [hn, not_true_eq_false, not_false_eq_true, Classical.not_not, if_true, ite_true, ite_run, ite_bind,
-         bind_assoc_run, pure_bind_run]
-       simp only [bind_run, tie_drop_range n s.buf.size s h hnd']
-       cases dropRange n s.buf.size s with
-       | mk r s1 => cases r with
-         | error p => rfl
-         | ok u =>
-           simp only [getBuf_run, dassert_run, pure_run]
-           by_cases hc : decide (s1.buf.size = n) = true <;> simp only [hc, if_true, if_false, ite_true, ite_false] <;> rfl)
+       have htie := tie_drop_range n s.buf.size s h hnd'
+       truncEval [Gen.truncate_back, htie]
+       all_goals (first | rfl | (exfalso; omega) |
+         (cases dropRange n s.buf.size s with
+          | mk r s1 => cases r with
+            | error p => rfl
+            | ok u =>
+              simp only [getBuf_run, dassert_run, pure_run, getBuf_bind, dassert_bind]
+              by_cases hc : s1.buf.size = n <;>
+                simp only [hc, decide_true, decide_false, if_true, if_false, ite_true, ite_false, Bool.false_eq_true] <;> rfl)))
 maybe theorem tie_truncate_front (n : Nat) (s : Sys) (h : Inv s.buf) (hnd : NonDefect (truncateFront n s).1) :
     Gen.truncate_front n s = truncateFront n s := by
   first
   | rfl      -- (a body outside the subset is *defined* as the model's function)
   | (
+     have hsz := h.size_le
+     have hW := h.cap_lt
      by_cases hz : s.buf.cap = 0 ∨ n ≥ s.buf.size
-     · simp only [Gen.truncate_front, truncateFront, getBuf_bind, ite_run, hz, if_true]
+     · have hm : truncateFront n s = (.ok (), s) := by
+         simp only [truncateFront, getBuf_bind, ite_run, hz, if_true, pure_run]
+       rw [hm]
+       truncEval [Gen.truncate_front]
+       all_goals (first | rfl | (exfalso; omega))
      · have hn : n ≤ s.buf.size := by omega
        have hu : usub s.buf.size n = .ok (s.buf.size - n) := by simp [usub]; omega
        have hm : truncateFront n s = (dropRange 0 (s.buf.size - n) >>= fun _ => do
            let b' ← getBuf
            dassert (decide (b'.size = n))) s := by
          simp only [truncateFront, getBuf_bind, ite_run, hz, if_false, liftE_bind, hu, bind_assoc_run]
-       rw [hm] at hnd
+       rw [hm] at hnd ⊢
        have hnd' := nd_of_bind _ _ s hnd
-       simp only [Gen.truncate_front, truncateFront, getBuf_bind, ite_run, bind_assoc_run, pure_run, pure_bind_run,
-         liftE_bind, hz, if_false, hu]
-       simp only [bind_run, tie_drop_range 0 (s.buf.size - n) s h hnd']
-       cases dropRange 0 (s.buf.size - n) s with
-       | mk r s1 => cases r with
-         | error p => rfl
-         | ok u =>
-           simp only [getBuf_run, dassert_run, pure_run]
-           by_cases hc : decide (s1.buf.size = n) = true <;> simp only [hc, if_true, if_false, ite_true, ite_false] <;> rfl)
+       have htie := tie_drop_range 0 (s.buf.size - n) s h hnd'
+       truncEval [Gen.truncate_front, htie]
+       all_goals (first | rfl | (exfalso; omega) |
+         (cases dropRange 0 (s.buf.size - n) s with
+          | mk r s1 => cases r with
+            | error p => rfl
+            | ok u =>
+              simp only [getBuf_run, dassert_run, pure_run, getBuf_bind, dassert_bind]
+              by_cases hc : s1.buf.size = n <;>
+                simp only [hc, decide_true, decide_false, if_true, if_false, ite_true, ite_false, Bool.false_eq_true] <;> rfl)))
 maybe theorem tie_clear (s : Sys) (h : Inv s.buf) (hnd : NonDefect (clear s).1) : Gen.clear s = clear s := by
   first
   | rfl      -- (a body outside the subset is *defined* as the model's function)
